@@ -100,6 +100,30 @@ def intern_matrix(w, A, want_inverse):
                 logdet = S.SymArr(A.axes[:-2], {(): lde})
                 w.inv_log.append(dict(kind="partner", atom=name))
                 return inv.fresh_copy(), logdet.fresh_copy()
+    if sa is not None and sa[0] == 1 and sa[1][1].startswith("Inv"):
+        # the matrix IS an interned inverse Inv<n> = Inv[X_n]: its inverse is X_n and ln det = -ln det X_n (det_nonsing_inv)
+        c, f = sa
+        rec = None
+        for key_, r_ in w.inv_registry.items():
+            if r_["inv"] == f[1] and r_.get("registered"):
+                rec, rkey = r_, key_
+        idx = f[2]
+        if rec is not None and ((idx[-2] is row and idx[-1] is col) or (idx[-2] is col and idx[-1] is row)):
+            bterms = idx[:-2]
+            mb = dict(zip(rec["batch"], bterms))
+            if rkey in w.ld_rules_by_key:
+                rule = w.ld_rules_by_key[rkey]
+                ldx = K.rename_bound(K.subst(rule["value"], dict(zip(rule["batch"], bterms))))
+            else:
+                ldx = K.atom(rec["ld"], *bterms)
+            logdet = S.SymArr(A.axes[:-2], {(): K.neg(ldx)})
+            inv = None
+            if want_inverse:
+                mm = dict(mb)
+                mm[rec["row"]], mm[rec["col"]] = row, col
+                inv = S.SymArr(A.axes, {(): K.rename_bound(K.subst(rec["Xexpr"], mm))}).fresh_copy()
+            w.hints_used.append("Matrix.det_nonsing_inv")
+            return inv, logdet.fresh_copy()
     # diagonal matrices (every monomial carries delta(row, col)): GtvLemmas.det_diagonal / inverse of a diagonal
     dg = _diagonal_entry(p, row, col)
     if dg is not None:
